@@ -261,7 +261,7 @@ func runC20Deep(r *Run, rng *Rng, replay string) {
 	}
 	// the witness of Props/C20_Deep.lean: kernels of 2 and 1 instructions on two devices complete in the same cycle
 	run(2, 1, 1, c20Trace{{{2}}, {{1}}, {{1}}})
-	if watch.maxDrvIn < 2 {
+	if watch != nil && watch.maxDrvIn < 2 {
 		r.Failf("C20.multidevice.witness", watch.cfg, "the two completion messages never were in the driver's inbox together (max %d)", watch.maxDrvIn)
 	}
 	run(3, 1, 1, c20Trace{{{1}}, {{1}}, {{1}}, {{1}}, {{1}}, {{1}}, {{1}}})
